@@ -74,15 +74,19 @@ def handleRepair : Handler := fun j a => do
   let i : In := { streamFrom := ← jStr inj "stream_from", master := master, lostTimerZero := tz, candidate := mc,
                   changeBlindOk := ← jBool inj "change_ok", stopOk := ← jBool inj "stop_ok", fresh := fresh,
                   uuid := if uuidOk then some uuid else none, changeOk := ← jBool inj "change_ok" }
-  let mActs := repairCascade host st cs i
+  -- a cascade record that cannot be read: the repair of cascade replicas is skipped (nothing is done on a partial picture)
+  let topoReadFails := jBoolOr j "topo_read_fails" false
+  let mActs := if topoReadFails then [] else repairCascade host st cs i
   let mut a := a
+  if topoReadFails && !acts.isEmpty then
+    a := a.violationSig "C16:cascade-replica-repaired-although-the-topology-could-not-be-read-completely" s!"{acts} in {j.compress}"
   if bsfName mc != cand then a := a.mismatch s!"c16repair candidate impl={cand} model={bsfName mc} on {j.compress}"
   -- compare: timers through the final state, panics through the recovered panic, the rest literally
   let mVisible := (mActs.filter fun x => x != .setLostTimer && x != .cleanLostTimer).map actName
   let implVisible := acts ++ (if panicked != "" then ["PANIC"] else [])
   if mVisible != implVisible then a := a.mismatch s!"c16repair acts impl={implVisible} model={mVisible} on {j.compress}"
   let expTz := if mActs.contains .cleanLostTimer then true else if mActs.contains .setLostTimer then false else tz
-  if panicked == "" && expTz != tzAfter then a := a.mismatch s!"c16repair timer zero impl={tzAfter} model={expTz} on {j.compress}"
+  if panicked == "" && !topoReadFails && expTz != tzAfter then a := a.mismatch s!"c16repair timer zero impl={tzAfter} model={expTz} on {j.compress}"
   -- monitors on the implementation's actions
   for x in acts do
     if x.startsWith "changeMaster:" then
